@@ -112,7 +112,8 @@ def _store_repeated_c05(case, v):
 def _derived_before_store(case, v):
     """y = f(x) derived before to_zarr(x)/store(x) of the not-yet-computed x: y later reads x
     from its old location (runtime fact recorded by the check from the real plan DAGs)."""
-    return v.get("cls") == "value_changed_by_history" and bool(v.get("ancestor_stored_after_derivation"))
+    return (v.get("cls") in ("value_changed_by_history", "earlier_target_changed", "earlier_target_unreadable")
+            and bool(v.get("ancestor_stored_after_derivation")))
 
 
 @matcher("cross_process_name_collision")
@@ -143,3 +144,10 @@ def _mem_argred(case, v):
     if v.get("cls") != "task_exceeds_projected_mem" or v.get("func") not in ("argmin", "argmax"):
         return False
     return (case.get("opt") or {}).get("kind") != "off" and any(st["op"] == "argred" for st in case["prog"]["steps"])
+
+
+@matcher("mem_fused_roll")
+def _mem_roll(case, v):
+    if v.get("cls") != "task_exceeds_projected_mem" or v.get("func") != "roll":
+        return False
+    return (case.get("opt") or {}).get("kind") != "off" and any(st["op"] == "roll" for st in case["prog"]["steps"])
